@@ -1124,11 +1124,13 @@ fn mut_class(seed: &SeedInput, mu: &Mut) -> String {
 // ------------------------------------------------------------------------------------------------
 // operations (the real code)
 
-pub const OPS: [&str; 12] =
-    ["read_class+write_class", "read_class_multi(unit visitor)", "tiny_v2::read<2>", "tiny_v2::read<3>", "tiny_v2_diff::read", "tiny_v2_diff::read_file", "enigma_file::read_into", "Nests::read", "FieldDescriptor::parse", "MethodDescriptor::parse", "ReturnDescriptor::parse", "descriptor try_from"];
+pub const OPS: [&str; 13] =
+    ["read_class+write_class", "read_class_multi(unit visitor)", "tiny_v2::read<2>", "tiny_v2::read<3>", "tiny_v2_diff::read", "tiny_v2_diff::read_file", "enigma_file::read_into", "Nests::read", "FieldDescriptor::parse", "MethodDescriptor::parse", "ReturnDescriptor::parse", "descriptor try_from", "read_class_multi(re-entrant visitor)"];
 
 fn ops_for(kind: Kind, nns: usize, m: usize) -> Vec<usize> {
     match kind {
+        // the undamaged input is also read by a visitor that reads the same class again from inside its callbacks
+        Kind::Class if m == 0 => vec![0, 1, 12],
         Kind::Class => vec![0, 1],
         Kind::Tiny => {
             if nns == 3 {
@@ -1272,6 +1274,17 @@ fn run_op(op: usize, input: &[u8], scratch: &std::path::Path) -> (OpOutcome, Vec
                 vs.push(Verdict { class: "runaway", path: "read_class_multi".into(), detail: format!("{} medium calls for {} bytes", r.stats.calls, n) });
             }
             if let Some(Ok(())) = judge!(res, al, "read_class_multi") {
+                out.ok = true;
+            }
+        }
+        12 => {
+            let mut r = SimReader::new(input, &medium());
+            let loader = crate::reentrant::Loader::new(input.to_vec(), 3, 4);
+            let (res, al) = guarded(n, || duke::read_class_multi(&mut r, loader).map(|_| ()));
+            if r.fuel_exhausted {
+                vs.push(Verdict { class: "runaway", path: name.into(), detail: "fuel".into() });
+            }
+            if let Some(Ok(())) = judge!(res, al, name) {
                 out.ok = true;
             }
         }
